@@ -128,7 +128,9 @@ def _worker(driver, family, cases, results, env, per_case_timeout, args, scratch
             return
         stderr = (errbuf[0] if errbuf else "")[-4000:]
         cid = inflight if inflight is not None else str(batch[done_here].get("id"))
-        results[cid] = {"crash": True, "rc": rc, "stderr": stderr, "timeout": rc == -9}
+        k = next((j for j, c in enumerate(batch) if str(c.get("id")) == cid), done_here)
+        results[cid] = {"crash": True, "rc": rc, "stderr": stderr, "timeout": rc == -9,
+                        "prev": [str(c.get("id")) for c in batch[max(0, k - 40):k]]}
         i += done_here + 1
 
 
@@ -304,6 +306,7 @@ class Run:
         self.exhaustive = None
         self.rule = ""
         self.tlc_runs = []
+        self.unreproduced = []
 
     # --- bookkeeping
     def add_tlc(self, r, what):
@@ -326,7 +329,9 @@ class Run:
         """A discrepancy between the real code and the specification's prediction.
         sig: small dict identifying it (for known-finding matching); case: replayable driver case."""
         if confirm is not None and not confirm():
-            raise Infra("discrepancy did not reproduce in a fresh process: %s" % text)
+            self.unreproduced.append(text)
+            log("  unreproduced discrepancy (not a verdict): " + text[:400])
+            return
         f = match_finding(self.prop, sig)
         if f:
             key = f.get("id") or json.dumps(f.get("match"), sort_keys=True)
@@ -367,4 +372,8 @@ class Run:
             self.prop, self.tier, "VIOLATED" if self.violations else "ok", self.states, self.transitions, self.traces,
             self.evaluations, len(self.nontrivial), time.time() - self.t0), flush=True)
         self.work.cleanup()
+        if not self.violations and self.unreproduced:
+            print("INFRA-FAILURE %s: %d discrepancies did not reproduce in a fresh process (no verdict)" % (
+                self.prop, len(self.unreproduced)), file=sys.stderr)
+            return 2
         return 1 if self.violations else 0
